@@ -67,6 +67,15 @@ CLAIMED["C17"] = (
     "DESIGN.md 3.7",
 )
 
+CLAIMED["C18"] = (
+    "netsim",
+    "deterministic simulation: fake sockets through dns.query.socket_factory/_wait_for on a virtual clock and the real asyncio backend on a virtual-time event loop; one seeded fault script (datagram faults, stream fragmentation, short writes, EOF/reset/stall, connect outcomes) drives sync and async; independent acceptance model",
+    "exploration",
+    "Seeded fault scripts per exchange: UDP datagram sequences from a 26-kind catalogue around the deadline under the full option matrix and four destination kinds; TCP receive under arbitrary fragmentation, capped recv sizes, EOF/reset/stall positions; TCP send under short writes and would-block gaps; full tcp() and udp_with_fallback() exchanges with connect outcomes. Oracles: whatever is returned is the strict parse of a delivered datagram that is a response to the query (own raw header/question reader) from the queried address; first genuine datagram wins / first offender raises as configured; Timeout exactly at the deadline; exact framing; sync == async.",
+    "Trusted: simkit.netsim (FakeSocket, pump, VirtualLoop, transports), the raw-byte acceptance model in checks/c18.py; strictness of a datagram is delegated to the real strict parser. _wait_for's selectors body and real kernel socket semantics are not exercised; trio backend not exercised.",
+    "DESIGN.md 3.8",
+)
+
 PENDING_REASON = "check under construction in this session (DESIGN.md section 8 build order); not claimed until its quick command is green on the unchanged tree"
 ALL = [f"C{i:02d}" for i in range(1, 21)]
 
